@@ -418,8 +418,9 @@ func clGenImport(c *Ctx, sinful string) (security.ClaimSessionOptions, string) {
 	if c.Rng.Intn(4) == 0 {
 		o.PeerFQU = clPick(c, []string{security.ExecuteSideMatchSessionFQU, "startd@pool"})
 	}
-	if c.Rng.Intn(4) == 0 {
-		o.Duration = time.Duration(1+c.Rng.Intn(48)) * time.Hour
+	if c.Rng.Intn(3) == 0 {
+		// a fallback lifetime: longer or shorter than what a minted lifetime leaves
+		o.Duration = clPick(c, []time.Duration{time.Duration(1+c.Rng.Intn(48)) * time.Hour, time.Duration(1+c.Rng.Intn(48)) * time.Hour, time.Duration(1+c.Rng.Intn(59)) * time.Minute, time.Duration(30+c.Rng.Intn(600)) * time.Second})
 		cls += "+fallback"
 	}
 	return o, cls
@@ -1044,6 +1045,43 @@ func clCheckMinted(c *Ctx, w *clWorld, m clMint, r clMinted, viol func(w *clWorl
 		}
 		if rs.serverCmds != clInts0(m.o.ValidCommands) {
 			viol(w, "C16:resumed-commands:"+dir[0]+"->"+dir[1], "resumed session does not restore the command policy", clInts0(m.o.ValidCommands), rs.serverCmds)
+		}
+	}
+	// --- property oracle: USE does not move the expiry. After any number of resumptions in either
+	// direction both sides still expire the session at the time derived from the claim (the embedded
+	// SessionExpires) — a connection that rides the session must not replace it by "now + something".
+	if !expired {
+		for k, extra := 0, c.Rng.Intn(3); k < extra; k++ {
+			dir := clPick(c, [][2]string{{"I", "M"}, {"M", "I"}})
+			rs := w.resume(dir[0], dir[1], mc.SessionID())
+			c.Count("resume-again:" + strings.Fields(rs.reply + " x")[1])
+			if rs.reply != "ok resumed deliver=1" {
+				viol(w, "C16:resume-fails-again:"+dir[0]+"->"+dir[1], "the shared session stops resuming after it was used", "ok resumed deliver=1", rs.reply+" "+rs.detail)
+			}
+		}
+		em2, ei2 := clEntry(w.cache("M"), mc.SessionID()), clEntry(w.cache("I"), mc.SessionID())
+		switch {
+		case em2 == nil || ei2 == nil:
+			viol(w, "C16:session-gone-after-use", "after resumptions a side no longer holds the session", "both hold it", fmt.Sprintf("minter holds=%v importer holds=%v", em2 != nil, ei2 != nil))
+		default:
+			if m.o.Lifetime > 0 {
+				for _, s := range []struct {
+					side string
+					e    *security.SessionEntry
+				}{{"minter", em2}, {"importer", ei2}} {
+					if !s.e.Expiration().Equal(time.Unix(exp, 0)) {
+						viol(w, "C16:expiry-moved-by-use:"+s.side, "after the session was resumed the "+s.side+"'s expiry is no longer the SessionExpires second embedded in the claim id (a connection riding the session replaced it)",
+							time.Unix(exp, 0).Format(time.RFC3339Nano), s.e.Expiration().Format(time.RFC3339Nano))
+					}
+				}
+			}
+			if (m.o.Lifetime > 0 || io.Duration <= 0) && !em2.Expiration().Equal(ei2.Expiration()) {
+				viol(w, "C16:expiry-differs-after-use", "after the session was resumed minter and importer expire it at different times", em2.Expiration().Format(time.RFC3339Nano), ei2.Expiration().Format(time.RFC3339Nano))
+			}
+			if m.o.Lifetime <= 0 && io.Duration > 0 && !ei2.Expiration().Equal(ei.Expiration()) {
+				c.Count("observation:fallback-expiry-moved-by-use") // the claim carries no expiry: the importer's own fallback, outside the lockstep clause
+			}
+			c.Count("expiry-after-use-checked")
 		}
 	}
 	// --- single-character corruption of the secret
